@@ -109,7 +109,7 @@ bool SimBackend::IsMIP() const { return BaseBackend::IsMIP(); }
 bool SimBackend::IsQCP() const { return M().n_in_group(mp::CG_Quadratic) > 0; }
 
 int g_session = 0;
-static int g_session_regs = 0;
+int g_session_regs = 0;
 void SimBackend::FinishOptionParsing() {
   Call("FinishOptionParsing");
   // a driver that connects to its solver once the options are known (server=..., cloud, licence token): the session opened
